@@ -49,6 +49,12 @@
                    v is Configure.Get(key) read again on the App of the bindings after all that.  The model has no state
                    to share: a binding is a function of (configured value, tag, type) - the observations are compared
                    with exactly the predictions of a single binding, and v with [cv].
+   [cxargs]      : FURTHER ARGUMENTS.  (before, after) = argument text the driver put in front of / behind the arguments the
+                   model reads (required=false, mapper=<key>) on every tag of the case: custom arguments, bracketed values
+                   with commas inside, validate=omitempty on scalar fields - so that required=false stands first, last or
+                   in the middle of 2-5 arguments.  They are part of the tag text the model parses ([args_of]); the value
+                   part, and with it every prediction, is the same as without them: an optional point never fails and a
+                   bound value never changes, whatever else the tag carries.
    [chist]       : POPULATED AGAIN.  Some (doc, sets) = the case's component is LAZY and its points were populated twice
                    on one App: the start loaded the document doc; the first request for the component populated it and
                    then failed at a later stage (Init / AfterPropertiesSet error, a validate argument, a by-name
@@ -94,8 +100,9 @@ Record case := mkCase {
   csfx : bytes;         (* ... and after the placeholder *)
   cmap : option bytes;  (* the tag argument mapper=<tag key> of this property *)
   cget2 : option cval;  (* mutating groups: Configure.Get(key) after every holder changed its bound value in place *)
-  chist : option (list (bytes * cval) * list (bytes * cval))
+  chist : option (list (bytes * cval) * list (bytes * cval));
                         (* populated again: (the loaded document, the Configure.Set calls between the two passes) *)
+  cxargs : bytes * bytes (* further arguments in front of / behind required=false and mapper=, each with its leading comma *)
 }.
 
 (* the type the property's decoder sees: names by the yaml tag, or by the tag key of the property's own mapper argument *)
@@ -152,7 +159,9 @@ Definition obs_of (r : res fval) : obs :=
 
 Definition cfg_case (c : case) : bytes -> cval := cfg_of [(ckey c, cv c)].
 Definition args_of (c : case) : bytes :=
-  (if creq c then [] else lit_req_false) ++ match cmap c with Some m => lit_mapper_arg ++ m | None => [] end.
+  fst (cxargs c) ++
+  (if creq c then [] else lit_req_false) ++ match cmap c with Some m => lit_mapper_arg ++ m | None => [] end
+  ++ snd (cxargs c).
 Definition body_of (c : case) : bytes := key_dflt (ckey c) (cdflt c).
 
 Definition value_tag (c : case) : bytes :=
@@ -551,6 +560,16 @@ Definition retry_counts (cs : list case) : list nat :=
    length (filter key_was_set cs);
    length (filter (fun c => retried c && retried_ok c && (is_ok (o_prefix c) || is_ok (o_value c))) cs);
    length (filter (fun c => retried c && prefix_modelled c && value_modelled c) cs)].
+
+(* further arguments: [cases with some; ... with required=false among them (not first or not last); ... of those whose key
+   is absent and whose value / prop routes left the field alone without failing] *)
+Definition has_xargs (c : case) : bool :=
+  match cxargs c with ([], []) => false | _ => true end.
+Definition xargs_counts (cs : list case) : list nat :=
+  [length (filter has_xargs cs);
+   length (filter (fun c => has_xargs c && negb (creq c)) cs);
+   length (filter (fun c => has_xargs c && negb (creq c) && prefix_binds_nothing c && is_ok (o_value c)
+                            && (is_ok (o_prop c) || Nat.eqb (ckind c) 2)) cs)].
 
 Definition class_counts (cs : list case) : list nat :=
   let key c := Nat.eqb (ckind c) 0 in
